@@ -165,6 +165,7 @@ def run_engine(
     on_event: Callable[[Any, Any, int], None] | None = None,
     stop: dict | None = None,
     max_wall_s: float = 120.0,
+    config=None,
 ) -> RunRecord:
     """``configure(schema) -> schema`` applies filters etc. ``on_event(event, stream, index)`` observes.
 
@@ -195,7 +196,8 @@ def run_engine(
 
         stopper.__name__ = "vfw_stopper"
         cfg = dict(cfg, extra_checks=list(cfg.get("extra_checks", [])) + [stopper])
-    config = build_config(cfg)
+    if config is None:
+        config = build_config(cfg)
     started = time.monotonic()
     try:
         stream = from_schema(schema, config=config).execute()
